@@ -47,9 +47,55 @@ def canon(v):
     return [8]
 
 
+_ambient = [0]
+
+
+def ambient():
+    """Ordinary use of the REST of the library in the same process, interleaved with the observed calls (first call, then
+    every 4000th): the conversion helpers on floats/strings/Decimals, name cleaning, sizes, wide packed and zoned items,
+    a copybook parsed, loaded and read.  Nothing is observed here; a change that makes one entry point leave process-wide
+    state behind (the thread's decimal context, a module-level cache, a class attribute) then shows up in the observed
+    decodes that follow."""
+    _ambient[0] += 1
+    if _ambient[0] % 4000 != 1:
+        return
+    import io
+    from decimal import Decimal as D
+    import stingray.estruct as E
+    from stingray import schema_instance as SI, workbook as WB, cobol_parser as CP
+    calls = [
+        lambda: SI.decimal_places(2, 3.14159), lambda: SI.decimal_places(2, 2.675), lambda: SI.decimal_places(0, 7.5),
+        lambda: SI.decimal_places(3, "1.23456"), lambda: SI.decimal_places(2, D("12345678901234567890.125")), lambda: SI.decimal_places(2, 17),
+        lambda: SI.digit_string(5, 1020.0), lambda: SI.digit_string(9, D("123456789")), lambda: SI.digit_string(16, 9007199254740993),
+        lambda: [f(1) for f in SI.CONVERSION.values()],
+        lambda: WB.name_cleaner("Total ($)\n"),
+        lambda: E.calcsize("USAGE COMP-3 PIC S9(31)"), lambda: E.unpack("USAGE COMP-3 PIC S9(31)", bytes([0x12] * 15 + [0x3D])),
+        lambda: E.unpack("USAGE DISPLAY PIC 9(20)V9(10)", bytes([0xF1] * 30)), lambda: E.unpack("USAGE DISPLAY PIC s9(3)v99", bytes([0xF1] * 5)),
+        lambda: E.unpack("USAGE COMP PIC S9(18)", bytes(8)), lambda: E.unpack("PIC X(3)", bytes([0xC1, 0xC2, 0xC3])),
+        lambda: E.unpack("USAGE COMP-3 PIC 9(3)", bytes([0x1A, 0x3C])),
+    ]
+
+    def copybook():
+        text = ("       01  AMB-REC.\n           05  AMB-N PIC 9.\n           05  AMB-T OCCURS 0 TO 3 TIMES DEPENDING ON AMB-N.\n"
+                "               10  AMB-P PIC S9(5)V99 COMP-3.\n           05  AMB-X PIC X(4).\n           05  AMB-R REDEFINES AMB-X PIC 9(4).\n")
+        js = list(CP.schema_iter(io.StringIO(text)))[0]
+        schema = SI.SchemaMaker.from_json(js)
+        u = SI.EBCDIC()
+        nav = u.nav(schema, SI.BytesInstance(bytes([0xF2, 0x12, 0x34, 0x56, 0x7C, 0x00, 0x00, 0x00, 0x1D, 0xF1, 0xF2, 0xF3, 0xF4])))
+        return [nav.name("AMB-T").index(1).name("AMB-P").value(), nav.name("AMB-R").value(), nav.name("AMB-X").value()]
+    for f in calls + [copybook]:
+        try:
+            f()
+        except BaseException as ex:   # DesignError derives from BaseException
+            from lib import CaseTimeout
+            if isinstance(ex, (KeyboardInterrupt, SystemExit, MemoryError, CaseTimeout)):
+                raise
+
+
 def unpack_obs(clause_text, buffer):
     from lib import observe_call
     import stingray.estruct as E
+    ambient()
     def call():
         (v,) = E.unpack(clause_text, bytes(buffer))
         return v
